@@ -112,7 +112,13 @@ def run(ck, rng, tier):
         nlv = rng.randint(1, m + 2)
         E0 = c02.preprocess(X, xs)
         rk = int(np.linalg.matrix_rank(E0, tol=1e-9 * max(1.0, np.abs(E0).max()))) if np.abs(E0).max() > 0 else 0
-        lines.append("pls %s %s %s %d %d %d" % (vf.fmt_mat(X.tolist(), m), vf.fmt_mat(Y.tolist(), 1), vf.fmt_mat([X[0].tolist()], m), xs, ys, nlv))
+        if c % 4 == 3 and rk >= 1:
+            # several responses of which the first is constant: the regular one must drive the fit
+            ykind = "constant_first_of_two"
+            Y = np.hstack([np.full((n, 1), float(rng.randint(-5, 5))), np.array([[float(rng.randint(-9, 9))] for _ in range(n)])])
+            ys = 0
+            nlv = rng.randint(1, rk)
+        lines.append("pls %s %s %s %d %d %d" % (vf.fmt_mat(X.tolist(), m), vf.fmt_mat(Y.tolist(), Y.shape[1]), vf.fmt_mat([X[0].tolist()], m), xs, ys, nlv))
         meta.append((X, Y, xs, ys, nlv, rk, ykind))
     rc, outs, err = vf.run_driver(epls, ("cap %d\n" % CAP) + "\n".join(lines) + "\n", timeout=600)
     if rc != 0 or len(outs) != len(meta):
@@ -126,7 +132,10 @@ def run(ck, rng, tier):
             nonterm = bool(o.get("nonterminating"))
             checks.add(("pls", i), "fuel", "%s (pls_fuel %d%%N (%d)%%Z (%d)%%Z %d%%N %s %s)" % ("" if nonterm else "negb", CAP, xs, ys, nlv, cm(X.tolist()), cm(Y.tolist())))
             if nonterm:
-                cls = "nontermination_constant_response" if ykind == "constant" else ("nontermination_beyond_rank" if min(nlv, m) > rk else "nontermination_within_rank")
+                Ex, Ey = c02.preprocess(X, xs), c02.preprocess(Y, ys)
+                uncorrelated = min(nlv, m) <= rk and ykind != "constant" and np.abs(Ex.T @ Ey).max() <= 1e-12 * max(1e-300, np.linalg.norm(Ex) * np.linalg.norm(Ey))
+                cls = "nontermination_constant_response" if ykind == "constant" else ("nontermination_beyond_rank" if min(nlv, m) > rk else
+                                                                                      ("nontermination_zero_covariance" if uncorrelated else "nontermination_within_rank"))
                 ck.fail("PLS", cls, "PLS does not return (more than %d inner iterations): X %dx%d rank %d, %s response, %d latent variables" % (CAP, X.shape[0], m, rk, ykind, nlv),
                         {"X": X.tolist(), "Y": Y.tolist(), "xs": xs, "ys": ys, "nlv": nlv})
             else:
@@ -208,6 +217,36 @@ def run(ck, rng, tier):
                         "KMeans(initialiser %d) does not return within 8 s: %d objects, %d distinct, %d clusters" % (init, n, nd, ncl), {"M": M, "nclusters": ncl, "initializer": init})
             elif rc != 0:
                 ck.fail("KMeans", "crash_init%d" % init, "KMeans aborted (rc %d) on duplicated rows" % rc, {"M": M, "nclusters": ncl, "initializer": init})
+    # ---------------- simplex optimiser on degenerate objectives: it must stop at its iteration cap
+    enm = vf.build_driver("drv_interp")
+    for c in range(9 if not thorough else 45):
+        dim = (1, 2, 3)[c % 3]
+        kind = ("constant", "one_direction", "flat_start")[(c // 3) % 3]
+        A = np.zeros((dim, dim)); b = np.zeros(dim)
+        if kind == "one_direction":
+            A[0, 0] = float(rng.randint(1, 4))            # f = a x_0^2: every other direction is flat
+        elif kind == "flat_start":
+            A[dim - 1, dim - 1] = 1.0; b[dim - 1] = 0.0   # start on the valley floor: reflections tie
+        x0 = [0.0 if kind == "flat_start" else float(rng.randint(-3, 3)) for _ in range(dim)]
+        step = [float(rng.choice((1, 2)))] * dim
+        iters = rng.choice((50, 200))
+        ck.case(("nm", dim, kind, iters, repr(x0)), sample={"routine": "NelderMeadSimplex", "dim": dim, "objective": kind, "iteration_cap": iters} if c % 4 == 0 else None)
+        ck.count("simplex " + kind)
+        cmd = "nm %s %s %s %s 1e-10 %d\n" % (vf.fmt_mat(A.tolist(), dim), vf.fmt_vec(b.tolist()), vf.fmt_vec(x0), vf.fmt_vec(step), iters)
+        rc, o3, err = vf.run_driver(enm, cmd, timeout=10)
+        if rc == 124:
+            ck.fail("NelderMeadSimplex", "nontermination_" + kind, "the simplex optimiser does not return within 10 s on a %s objective in %d dimension(s) with an iteration cap of %d" % (kind, dim, iters),
+                    {"A": A.tolist(), "b": b.tolist(), "x0": x0, "step": step, "iterations": iters})
+        elif rc != 0 or len(o3) != 1:
+            ck.fail("NelderMeadSimplex", "crash_" + kind, "the simplex optimiser aborted (rc %s)" % rc, {"A": A.tolist(), "x0": x0, "step": step})
+        else:
+            o = o3[0]
+            # at most (n+2) evaluations per iteration plus the shrink (n) and the start simplex (n+1)
+            bound = (iters + 2) * (2 * dim + 3) + dim + 1
+            if o["evals"] > bound:
+                ck.fail("NelderMeadSimplex", "iteration_cap_exceeded_" + kind, "%d objective evaluations for an iteration cap of %d (bound %d)" % (o["evals"], iters, bound), {"A": A.tolist(), "x0": x0, "step": step, "iterations": iters})
+            elif not (np.isfinite(o["res"]) and np.isfinite(np.array(o["best"])).all()):
+                ck.fail("NelderMeadSimplex", "not_finite_" + kind, "returned value %r at %r" % (o["res"], o["best"]), {"A": A.tolist(), "x0": x0, "step": step})
     failing, logs, cerr = vf.run_cases_v("c18", IMPORTS, DEFS, checks.items, shard=8, timeout=1200)
     if cerr:
         ck.broken("correspondence:coq-eval", cerr)
